@@ -152,7 +152,22 @@ func execOne(t *testing.T, name string, c Chooser, seed uint64, prop, tier strin
 					o.leak = s
 					return
 				}
-				o.harness = "panic outside run: " + s + "\n" + string(debug.Stack())
+				extra := ""
+				if strings.Contains(s, "all goroutines in bubble are blocked") {
+					buf := make([]byte, 1<<20)
+					n := runtime.Stack(buf, true)
+					var keep []string
+					for _, g := range strings.Split(string(buf[:n]), "\n\n") {
+						if strings.Contains(g, "synctest bubble") {
+							keep = append(keep, g)
+						}
+					}
+					extra = "\nblocked goroutines of the bubble:\n" + strings.Join(keep, "\n\n")
+					if len(extra) > 12000 {
+						extra = extra[:12000]
+					}
+				}
+				o.harness = "panic outside run: " + s + "\n" + string(debug.Stack()) + extra
 			}
 		}()
 		synctest.Test(st, func(bt *testing.T) {
